@@ -68,14 +68,18 @@ def check_deck(deck, seed, flags=(), lattice=(), n_points=60, want=('C01', 'C08'
             continue          # the generated deck is ill-defined there (not the converter's problem)
         stats['located'] += 1
         vols = f.locate(pt)
+        if loc[-1] in ('outside-lattice', 'lattice-universe-0'):
+            if vols and 'C06' in want:
+                fail('C06', 'volume-where-the-lattice-has-none', f'{loc}: volumes {vols}', pt)
+            continue
         top = deck.cells[loc[0]]
         if top.imp == 0:
             if vols and 'C01' in want:
                 fail('C01', 'point-of-zero-importance-cell-in-a-volume', f'cell {loc[0]} imp=0, volumes {vols}', pt)
             continue
         if len(vols) != 1:
-            if 'C01' in want:
-                fail('C01', 'point-not-in-exactly-one-volume', f'owner path {loc}, volumes {vols}', pt)
+            if 'C01' in want or 'C06' in want:
+                fail('C06' if 'C06' in want else 'C01', 'point-not-in-exactly-one-volume', f'owner path {loc}, volumes {vols}', pt)
             continue
         v = vols[0]
         if len(loc) == 1:
@@ -84,9 +88,13 @@ def check_deck(deck, seed, flags=(), lattice=(), n_points=60, want=('C01', 'C08'
         else:
             com = f.volumes[v]['comment']
             pairs = re.findall(r'\((\d+), (\d+)\)', com)
-            want_pair = (str(loc[-1]), str(loc[-2]))
-            if 'C05' in want and (not pairs or pairs[-1] != want_pair and pairs[0] != want_pair):
-                fail('C05', 'provenance', f'owner path {loc}, volume {v} comment {com!r}', pt)
+            # provenance: the filler (lowest-level owner) comes first, the level-0 container last; intermediate
+            # containers may be copies made by the converter (lattice elements, moved cells) with new numbers
+            leaf_is_lattice = bool(deck.cells[loc[-1]].lat) if loc[-1] in deck.cells else False
+            ok = bool(pairs) and pairs[-1][1] == str(loc[0]) and (leaf_is_lattice or pairs[0][0] == str(loc[-1]))
+            if ('C05' in want or 'C06' in want) and not ok:
+                fail('C06' if 'C06' in want else 'C05', 'provenance',
+                     f'owner path {loc}, volume {v} comment {com!r}', pt)
         if 'C09' in want and f.geomcomp:
             leaf = deck.cells[loc[-1]]
             base = leaf
